@@ -23,9 +23,9 @@ META = {
                   "pyrtcm.rtcmreader.RTCMReader.parse"],
     "transforms": ["fold extraction + if-conversion of calc_crc24q"],
     "shims": ["int"],
-    "bounds": {"quick": "lemmas over all (24-bit state, octet) pairs; two-bit errors with gaps <= 64 zero bytes (inside 1029 bytes: thorough); fold faithfulness "
+    "bounds": {"quick": "lemmas over all (24-bit state, octet) pairs; two-bit errors: solver-decided for gaps <= 64 zero bytes, and for every distance inside 1029 bytes through the linearity lemma plus the table of the 8232 single-bit syndromes computed with the real loop body; fold faithfulness "
                         "checked for lengths 0..16, 255, 256, 1029; parse() gate on symbolic frames of 8..12 bytes; direct whole-function equivalence for lengths <= 2",
-               "thorough": "two-bit gaps <= 1028 bytes; lemmas cross-checked with cvc5 and /usr/bin/z3 4.8.12 via SMT-LIB2"},
+               "thorough": "solver two-bit gaps <= 128 bytes; lemmas cross-checked with cvc5 and /usr/bin/z3 4.8.12 via SMT-LIB2"},
     "outside": "messages longer than 1029 bytes (the induction is stated up to the maximum frame size)",
     "assumptions": ["induction on message length composes the per-step lemmas (stated, not mechanised)", "reference CRC: schoolbook long division and table form, mutually checked"],
 }
@@ -33,8 +33,8 @@ WALL_BUDGET = {"quick": 480, "thorough": 3000}
 
 
 def jobs(tier, seed):
-    G = 64 if tier == 'quick' else 1028
-    out = [('lemmas',), ('two', G), ('faith',), ('gate', 8), ('gate', 10), ('gate', 12), ('direct',), ('crc2bytes',), ('valoff',), ('hist',)]
+    G = 64 if tier == 'quick' else 128
+    out = [('lemmas',), ('two', G), ('twosyn',), ('faith',), ('gate', 8), ('gate', 10), ('gate', 12), ('direct',), ('crc2bytes',), ('valoff',), ('hist',)]
     if tier != 'quick':
         out.append(('cross',))
     return out
@@ -224,6 +224,50 @@ def run_two(G, res):
     for i in range(0, len(claims), chunk):
         prove(res, f"Two gaps {i}..{min(i + chunk, len(claims)) - 1}", z3.Implies(pre, z3.And(*claims[i:i + chunk])), timeout=900000)
     res['samples'].append({'two_bit_gaps': G})
+
+
+def run_twosyn(res):
+    """two flipped bits at ANY distance inside a maximum-size frame (1029 bytes = 8232 bit positions).  By the linearity lemma (proved by
+    the solver for every state and octet) the CRC of a two-bit error pattern is the XOR of the CRCs of the two single-bit patterns; so it is
+    non-zero iff the 8232 single-bit syndromes are pairwise distinct.  The syndromes are computed with the extracted REAL loop body on
+    concrete values (8 x 1029 steps) and compared - a finite table derived from the code, not sampled."""
+    fold = get_fold()
+    if not fold.ok:
+        res['inconclusive'].append("fold extraction failed: two-bit syndrome table unavailable")
+        return
+    st0 = fold.pre()
+    ci = fold.state.index('crc') if 'crc' in fold.state else 0
+    seen = {}
+    t0 = time.time()
+    nbytes = 1029
+    for bit in range(8):
+        st = fold.step(*st0, 1 << bit)
+        if not isinstance(st, tuple):
+            st = (st,)
+        for k in range(nbytes):          # the flipped bit sits in byte (nbytes-1-k) counted from the start
+            syn = fold.post(*st)
+            pos = (nbytes - 1 - k, bit)
+            res['obligations'] += 1
+            if syn == 0 or syn in seen:
+                res['refuted'] += 1
+                other = seen.get(syn)
+                msg = bytearray(nbytes)
+                msg[pos[0]] ^= 1 << bit
+                if other is not None:
+                    msg[other[0]] ^= 1 << other[1]
+                res['cex'].append({'kind': 'crcpattern', 'error': bytes(msg).hex(), 'why': f"two-bit error at byte/bit {pos} and {other} has a zero CRC syndrome",
+                                   'dedup': 'twosyn'})
+                return
+            res['discharged'] += 1
+            seen[syn] = pos
+            st = fold.step(*st, 0)
+            if not isinstance(st, tuple):
+                st = (st,)
+    res['paths'] += 1
+    res['decisions'] += len(seen)
+    res['notes'].append(f"two-bit (syndrome table): {len(seen)} single-bit syndromes of a 1029-byte frame pairwise distinct and non-zero ({time.time() - t0:.1f}s); "
+                        "with Lin this covers all C(8232,2) two-bit patterns")
+    res['witnesses'].append({'kind': 'crcpattern', 'error': (b"\x00" * 500 + b"\x01" + b"\x00" * 527 + b"\x80").hex()})
 
 
 def run_faith(res):
@@ -575,6 +619,8 @@ def run_job(spec):
         run_lemmas(res)
     elif k == 'two':
         run_two(spec[1], res)
+    elif k == 'twosyn':
+        run_twosyn(res)
     elif k == 'faith':
         run_faith(res)
     elif k == 'gate':
